@@ -342,7 +342,7 @@ CHECKS["C19"] = {
          "site_re": r"^(berty\.tech/weshnet/v2[^\s(]*)\("},
     ],
     "mandatory_labels": {"all": ["sequences/call-after-account-group-deactivation", "calls/succeeded", "helpers", "decoders",
-                                 "method/ContactBlock", "method/DecodeContact", "method/GroupMetadataList", "method/ServiceExportData", "listing-rpc/both-bounds-real"]},
+                                 "method/ContactBlock", "method/DecodeContact", "method/GroupMetadataList", "method/ServiceExportData", "listing-rpc/both-bounds-real", "argumentless-sequences"]},
 }
 
 CHECKS["C20"] = {
